@@ -70,6 +70,18 @@ pub(crate) fn marker_persister_held() -> bool {
     PERSISTER_HELD.load(Ordering::SeqCst)
 }
 
+static PERSISTER_TICKS: AtomicU64 = AtomicU64::new(0);
+
+/// Called at the top of every iteration of a marker persister thread's loop.
+pub(crate) fn marker_persister_tick() {
+    PERSISTER_TICKS.fetch_add(1, Ordering::SeqCst);
+}
+
+/// Number of persister loop iterations started so far (all instances of this process).
+pub fn marker_persister_ticks() -> u64 {
+    PERSISTER_TICKS.load(Ordering::SeqCst)
+}
+
 pub fn sanitize_namespace(key: &str) -> String {
     crate::wal::config::sanitize_namespace(key)
 }
